@@ -845,8 +845,17 @@ func (n *nodeContext) containsDefIDRec(node, child, start defID) bool {
 			// Process all entries with 'to' == p.
 			for cursor < len(n.flatReplaceIDs) && n.flatReplaceIDs[cursor].to == p {
 				from := n.flatReplaceIDs[cursor].from
-				if from != child && n.containsDefIDRec(node, from, start) {
-					return true
+				// The replaceIDs can form a cycle (mutual references between
+				// embedded structs). A path that is longer than the number
+				// of replaceIDs must have gone around such a cycle and cannot
+				// reach anything that a shorter path does not reach.
+				if from != child && n.containsDefIDDepth <= len(n.flatReplaceIDs) {
+					n.containsDefIDDepth++
+					found := n.containsDefIDRec(node, from, start)
+					n.containsDefIDDepth--
+					if found {
+						return true
+					}
 				}
 				cursor++
 			}
